@@ -99,10 +99,26 @@ def geometry_error(img):
     return False
 
 
+
+def ref_block(pattern, n):
+    """The documented fill pattern, stated independently of BinaryPattern.get_block: zeros / ones / 0,1,2,... mod 256 /
+    the number's own minimal big-endian bytes, repeated from offset 0 and cut to n bytes.  `pattern` is a BinaryPattern, its spec string or None (= zeros)."""
+    spec = getattr(pattern, "_pattern", pattern)
+    if spec is None or spec == "zeros":
+        return bytes(n)
+    if spec == "ones":
+        return b"\xff" * n
+    if spec == "inc":
+        return bytes(i & 0xFF for i in range(n))
+    v = int(spec, 0) if isinstance(spec, str) else int(spec)
+    unit = v.to_bytes(max(1, (v.bit_length() + 7) // 8), "big")
+    return (unit * (n // len(unit) + 1))[:n]
+
+
 def pat_byte(img, k):
     if img.pattern is None:
         return 0
-    return img.pattern.get_block(k + 1)[k]
+    return ref_block(img.pattern, k + 1)[k]
 
 
 # ------------------------------------------------------------------------------------------------ HEX / SREC text model
@@ -315,7 +331,7 @@ def run(ck):
                     ok_fill = False
             s.expect(ok_fill, toks, "own binary bytes are not at offset 0 where no sub-image covers them")
             if img.sub_images or not (own and len(own) == ln[1]):
-                blk = img.pattern.get_block(ln[1]) if img.pattern else bytes(ln[1])
+                blk = ref_block(img.pattern, ln[1])   # independent of BinaryPattern.get_block
                 bad = [k for k in range(len(own), min(len(data), len(blk))) if not covered[k] and data[k] != blk[k]]  # (a length mismatch is reported above)
                 # padding appended by the final align_block restarts the pattern; only positions inside len() before alignment are checked
                 s.expect(not bad or img.alignment != 1, toks, "uncovered bytes do not hold the fill pattern", bad[:4])
@@ -553,7 +569,7 @@ def config_path(ck, drv, scratch):
                 if explicit:
                     blk["offset"] = off
                 regions.append({"binary_block": blk})
-                content = BinaryPattern(pat).get_block(ln)
+                content = ref_block(pat, ln)
                 spec.append((name, off if explicit else None, content, pat))
             else:
                 data = bytes([0x80 | rng.getrandbits(7)] + [rng.getrandbits(8) for _ in range(ln - 1)])  # first byte >= 0x80: never sniffed as text
@@ -599,7 +615,7 @@ def config_path(ck, drv, scratch):
             sc.expect(False, cfg, "an image loaded from a valid configuration does not export", ex)
             continue
         data = ex[1]
-        blk = BinaryPattern(rootpat).get_block(len(data))
+        blk = ref_block(rootpat, len(data))
         covered = bytearray(len(data))
         ok_at = True
         for name, off, content, pat in spec:
